@@ -4,6 +4,7 @@ import (
 	"fmt"
 	"go/token"
 	"go/types"
+	"regexp"
 	"regexp/syntax"
 	"sort"
 	"strings"
@@ -151,6 +152,21 @@ func runValDom(c *core.Ctx) {
 		}
 		c.Check(t.Equal(an.Range(0, an.PosInf)), nil, fname(c, filValid), "domain("+fld+")", P.Pos(filValid.Pos()),
 			fmt.Sprintf("present %s accepted ∈ %s", fld, t), fmt.Sprintf("present %s accepted ∈ %s, want [0,+∞)", fld, t))
+	}
+	// the window: with both bounds present a filter is refused for since > until at most — since ==
+	// until (a one-second window) and since < until are well-formed and must stay acceptable
+	{
+		fr := an.SymFrame("recv.Since", "recv.Until").AssumePresent("recv.Since").AssumePresent("recv.Until")
+		var opq []an.Cond
+		t, _, n, ok := fr.FuncBoolMeaning(filValid, 0, nil, &opq)
+		c.CountPaths(n)
+		if !ok || n == 0 {
+			c.Unknown(nil, fname(c, filValid), "window(Since,Until)", P.Pos(filValid.Pos()), fmt.Sprintf("too many paths (paths=%d)", n))
+		} else {
+			c.Check(an.Range(an.NegInf, 0).Subset(t), nil, fname(c, filValid), "window(Since,Until)", P.Pos(filValid.Pos()),
+				"with both bounds present the filter can be valid for since ∈ "+t.Format("until")+": every since ≤ until stays acceptable",
+				"with both bounds present the filter can be valid only for since ∈ "+t.Format("until")+", want at least (-∞,until]: a well-formed window (since == until is one second wide) is judged invalid")
+		}
 	}
 	// tag-key letter set in Valid: accept set at the loop latch
 	checkLoopAccept(c, filValid, "rangekey(recv.Tags)[0]", letters, "tag-key letter (Valid)")
@@ -1355,7 +1371,22 @@ func runValSlice(c *core.Ctx) {
 			return
 		}
 		host := call.Parent()
-		for _, g := range an.Guards(host, call.Block()) {
+		gs := an.Guards(host, call.Block())
+		// (a case with several letters, `case "e", "p":` — each test's true edge enters the body)
+		for _, hb := range host.Blocks {
+			iff, isIf := an.LastInstr(hb).(*ssa.If)
+			if !isIf || len(hb.Succs) != 2 {
+				continue
+			}
+			b, isB := iff.Cond.(*ssa.BinOp)
+			if !isB || b.Op != token.EQL {
+				continue
+			}
+			if body := hb.Succs[0]; (body == call.Block() || body.Dominates(call.Block())) && len(body.Preds) > 1 {
+				gs = append(gs, an.Cond{V: b, True: true, At: hb})
+			}
+		}
+		for _, g := range gs {
 			if b, ok := g.V.(*ssa.BinOp); ok && b.Op == token.EQL && g.True {
 				for _, side := range []ssa.Value{b.X, b.Y} {
 					if s, ok := an.ConstStr(side); ok {
@@ -1420,7 +1451,7 @@ func runValSlice(c *core.Ctx) {
 	}
 	for _, row := range []struct{ letter, same string }{{"e", "ID"}, {"p", "Pubkey"}} {
 		fv := letterVal[row.letter]
-		c.Check(fv != nil && evVal[row.same] != nil && sameFunc(fv, evVal[row.same]), nil, fname(c, filValid), "tag["+row.letter+"]", P.Pos(filValid.Pos()),
+		c.Check(fv != nil && evVal[row.same] != nil && (sameFunc(fv, evVal[row.same]) || sameBody(fv, evVal[row.same])), nil, fname(c, filValid), "tag["+row.letter+"]", P.Pos(filValid.Pos()),
 			"#"+row.letter+" values validated like Event."+row.same, "#"+row.letter+" values are not validated by the validator of Event."+row.same)
 	}
 	if av := letterVal["a"]; av == nil {
@@ -1846,4 +1877,43 @@ func labelScanner(c *core.Ctx, parse *ssa.Function) (bool, string, token.Pos) {
 	before, after := w1 != nil, w2 != nil
 	detail := fmt.Sprintf("label scanner: whitespace skipped before '[': %v, after '[': %v; %s skips bytes ∈ %s (JSON whitespace is %s)", before, after, skipper.Name(), skipped.String(), want.String())
 	return before && after && skipped.Equal(want), detail, skipper.Pos()
+}
+
+// sameBody: two small functions with the same signature whose SSA is identical instruction by
+// instruction once their parameter names are blanked (`validID` and `validPubkey`: both `len(s) ==
+// 64 && validHexString(s)`): the same predicate under two names.
+func sameBody(f, g *ssa.Function) bool {
+	if f == nil || g == nil || len(f.Blocks) == 0 || len(f.Blocks) != len(g.Blocks) || len(f.Blocks) > 8 || len(f.Params) != len(g.Params) || !types.Identical(f.Signature, g.Signature) {
+		return false
+	}
+	blank := func(fn *ssa.Function, s string) string {
+		for _, p := range fn.Params {
+			re := regexp.MustCompile(`\b` + regexp.QuoteMeta(p.Name()) + `\b`)
+			s = re.ReplaceAllString(s, "_")
+		}
+		return s
+	}
+	for i := range f.Blocks {
+		a, b := f.Blocks[i], g.Blocks[i]
+		if len(a.Instrs) != len(b.Instrs) || len(a.Succs) != len(b.Succs) {
+			return false
+		}
+		for j := range a.Succs {
+			if a.Succs[j].Index != b.Succs[j].Index {
+				return false
+			}
+		}
+		for j := range a.Instrs {
+			if _, dbg := a.Instrs[j].(*ssa.DebugRef); dbg {
+				if _, dbg2 := b.Instrs[j].(*ssa.DebugRef); !dbg2 {
+					return false
+				}
+				continue
+			}
+			if blank(f, a.Instrs[j].String()) != blank(g, b.Instrs[j].String()) {
+				return false
+			}
+		}
+	}
+	return true
 }
